@@ -1,4 +1,5 @@
 import RV.C04.ConstructLemmas
+import RV.C04.AnalysisLemmas
 /-
   C04 — "SPARQL graph patterns evaluate to the solution multiset the algebra defines".
 
@@ -425,5 +426,113 @@ example : (Spec.instTemplate exTpl (Spec.eval exData exData.dflt (Row.empty : Ro
 
 /-- push-down with a non-empty context that rules solutions out -/
 example : (Model.evalPart exData exData.dflt ((Row.empty : Row 4).set 0 (i 1)) exPattern).length = 2 := by decide +kernel
+
+end RV.C04
+
+namespace RV.C04
+open Spec Model
+
+/-! ### Round g — rdflib's analysis passes (`analyse`, `_addVars` of algebra.py; model: Analysis.lean)
+
+  `P.annotate` is the tree as the two passes at the end of `translateQuery` annotate it (`lazy` flags, `_vars` sets),
+  whatever annotations `P` carried before; the harness compares it with the annotations found on rdflib's own tree on
+  every case (driver line `annot`) and runs the evaluator model on it (`amodel`). -/
+
+/-- the analysis inside the verified pipeline: `evaluate.py` run on the tree as `analyse` / `_addVars` annotate it gives
+    the algebra's solutions of the tree, joined with the pushed-in bindings — wherever the annotated tree is
+    `safeIn ctx` -/
+def Statement_analysis_correct : Prop :=
+  ∀ (n : Nat) (D : Dataset) (P : Alg) (ctx : List Nat), D.WF → P.annotate.safeIn ctx = true → WellScoped n P →
+    ∀ (g : Graph) (μ0 : Row n), μ0.domIn ctx →
+      (Model.evalPart D g μ0 P.annotate).Perm (push μ0 (Spec.eval D g Row.empty P))
+
+/-- what `_addVars` says it computes ("find which variables may be bound by this part of the query"): no solution of
+    the pattern binds a variable outside the node's `_vars`.  FALSE of the code as it is (VALUES: known finding K2). -/
+def Statement_addVars_may : Prop :=
+  ∀ (n : Nat) (D : Dataset) (P : Alg) (g : Graph) (μ : Row n), WellScoped n P →
+    μ ∈ Spec.eval D g Row.empty P → μ.domIn P.addVars
+
+/-- what `evaluate.py` uses `_vars` for (`forget(_except=_vars)`, `remember(_vars)` treat a listed variable as the
+    sub-pattern's own binding): every solution binds every listed variable.  FALSE of the code as it is (K1). -/
+def Statement_addVars_must : Prop :=
+  ∀ (n : Nat) (D : Dataset) (P : Alg) (g : Graph) (μ : Row n), WellScoped n P →
+    μ ∈ Spec.eval D g Row.empty P → ∀ v ∈ P.addVars, (μ.get v).isSome = true
+
+/-- patterns built from triples, joins, FILTER, MINUS and GRAPH only: every solution binds every variable -/
+def Alg.conjunctive : Alg → Bool
+  | .bgp _ => true
+  | .join _ a b => a.conjunctive && b.conjunctive
+  | .filter _ p _ _ => p.conjunctive
+  | .minus a _ _ _ => a.conjunctive
+  | .graph _ p => p.conjunctive
+  | _ => false
+
+theorem analysis_correct : Statement_analysis_correct := by
+  intro n D P ctx hD hs hws g μ0 h0
+  have := pushdown_induction hD P.annotate ctx hs (by rw [Alg.allVars_annotate]; exact hws) g μ0 h0
+  rwa [specEval_annotate] at this
+
+/-- `_addVars` is a sound may-bind analysis on VALUES-free patterns -/
+theorem addVars_may_partial (n : Nat) (D : Dataset) (P : Alg) (g : Graph) (μ : Row n) (hv : P.valuesFree = true)
+    (hws : WellScoped n P) (hμ : μ ∈ Spec.eval D g Row.empty P) : μ.domIn P.addVars :=
+  fun v hb => Alg.may_subset_addVars P hv v ((spec_bounds P (Alg.inFragment_true P) hws g μ hμ).2 v hb)
+
+/-- K2 as a fact about the analysis: `VALUES ?v0 { <1> }` binds `?v0`, its `_vars` is empty -/
+theorem addVars_may_witness : ¬ Statement_addVars_may := by
+  intro h
+  have := h 1 ⟨[], []⟩ (.values [0] [[some (.iri 1)]]) [] ((Row.empty : Row 1).set 0 (.iri 1))
+    (by unfold WellScoped; decide) (by decide) 0 (by decide)
+  simp [Alg.addVars] at this
+
+/-- on conjunctive patterns `_vars` IS the must-bind set (and the may-bind set) -/
+theorem addVars_eq_must_of_conjunctive : ∀ P : Alg, P.conjunctive = true → P.addVars = P.must ∧ P.may = P.must
+  | .bgp _, _ => ⟨rfl, rfl⟩
+  | .join _ a b, h => by
+    simp only [Alg.conjunctive, Bool.and_eq_true] at h
+    simp [Alg.addVars, Alg.must, Alg.may, addVars_eq_must_of_conjunctive a h.1, addVars_eq_must_of_conjunctive b h.2]
+  | .filter _ p _ _, h => by
+    simp only [Alg.conjunctive] at h
+    simp [Alg.addVars, Alg.must, Alg.may, addVars_eq_must_of_conjunctive p h]
+  | .minus a _ _ _, h => by
+    simp only [Alg.conjunctive] at h
+    simp [Alg.addVars, Alg.must, Alg.may, addVars_eq_must_of_conjunctive a h]
+  | .graph _ p, h => by
+    simp only [Alg.conjunctive] at h
+    simp [Alg.addVars, Alg.must, Alg.may, addVars_eq_must_of_conjunctive p h]
+  | .union _ _, h | .leftJoin _ _ _ _ _, h | .extend _ _ _ _, h | .values _ _, h | .project _ _, h => by
+    simp [Alg.conjunctive] at h
+
+theorem addVars_must_partial (n : Nat) (D : Dataset) (P : Alg) (g : Graph) (μ : Row n) (hc : P.conjunctive = true)
+    (hws : WellScoped n P) (hμ : μ ∈ Spec.eval D g Row.empty P) : ∀ v ∈ P.addVars, (μ.get v).isSome = true := by
+  intro v hv
+  rw [(addVars_eq_must_of_conjunctive P hc).1] at hv
+  exact (spec_bounds P (Alg.inFragment_true P) hws g μ hμ).1 v hv
+
+/-- K1 as a fact about the analysis: `{ ?v0 <10> ?v1 } UNION { }` lists `?v0`, the solution of the empty branch does
+    not bind it -/
+theorem addVars_must_witness : ¬ Statement_addVars_must := by
+  intro h
+  have := h 2 ⟨[], []⟩ (.union (.bgp [⟨.var 0, .const (.iri 10), .var 1⟩]) (.bgp [])) [] (Row.empty : Row 2)
+    (by unfold WellScoped; decide) (by decide) 0 (by decide)
+  exact absurd this (by decide)
+
+/-- for VALUES-free queries the analysis can only be wrong in the K1 way: if at every FILTER / BIND / MINUS / OPTIONAL
+    node the relevant variables that the context may bind and `_addVars` lists are bound by every solution of the
+    sub-pattern (`Alg.mustOK`, decidable), evaluation of the tree as rdflib annotates it is exact -/
+theorem analysis_correct_mustOK (n : Nat) (D : Dataset) (P : Alg) (ctx : List Nat) (hD : D.WF)
+    (hv : P.valuesFree = true) (hm : P.mustOK ctx = true) (hws : WellScoped n P) (g : Graph) (μ0 : Row n)
+    (h0 : μ0.domIn ctx) :
+    (Model.evalPart D g μ0 P.annotate).Perm (push μ0 (Spec.eval D g Row.empty P)) :=
+  analysis_correct n D P ctx hD (Alg.safeIn_annotate_of_mustOK P ctx hv hm) hws g μ0 h0
+
+/-- non-vacuity: `exPattern5` carries (as sets) the annotations the analysis computes for it; it is VALUES-free and
+    `mustOK []` -/
+example : exPattern5.annotate.annots = exPattern5.annots ∧ exPattern5.valuesFree = true ∧
+    exPattern5.mustOK [] = true ∧ exPattern5.annots = ["F0,1,2", "L0,1|1,2"] := by decide
+/-- the lazy flag: `{ ?v0 <10> ?v1 . { ?v1 <11> ?v2 } UNION { VALUES ?v2 {7} } }` joins lazily, a join of joins does not -/
+example : (Alg.join false (.bgp []) (.union (.bgp []) (.values [2] [[some (.int 7)]]))).annotate =
+    .join true (.bgp []) (.union (.bgp []) (.values [2] [[some (.int 7)]])) := rfl
+example : (Alg.join true (.join true (.bgp []) (.bgp [])) (.bgp [])).annotate =
+    .join false (.join true (.bgp []) (.bgp [])) (.bgp []) := rfl
 
 end RV.C04
